@@ -346,4 +346,194 @@ theorem loadTriples_files (ver images : PyVal) (vt : VerT) (hvt : versionTuple v
         exact hmono _ hnew_mem
       · exact hfiles t' hrest img' hd'
 
+/-! ### the same for every format version, including the `src` re-filing of documents up to 1.1 -/
+
+theorem mem_entries_archAdd {v a : Str} {id : Nat} {img : Image} {as : List (Str × Cell)} {e : Str × Str × Nat × Image} :
+    e ∈ archEntriesId v (archAdd as a id img) → e = (v, a, id, img) ∨ e ∈ archEntriesId v as := by
+  induction as with
+  | nil => intro h; simp [archAdd, archEntriesId] at h; exact Or.inl h
+  | cons ac rest ih =>
+    obtain ⟨a', c⟩ := ac
+    unfold archAdd
+    split
+    · rename_i hh
+      have h' : a' = a := by simpa using hh
+      subst h'
+      intro h
+      rw [archEntriesId_cons] at h ⊢
+      rcases List.mem_append.mp h with h | h
+      · obtain ⟨y, hy, rfl⟩ := List.mem_map.mp h
+        rcases mem_cellAdd hy with e' | e'
+        · exact Or.inl (by rw [e'])
+        · exact Or.inr (List.mem_append_left _ (List.mem_map.mpr ⟨y, e', rfl⟩))
+      · exact Or.inr (List.mem_append_right _ h)
+    · intro h
+      rw [archEntriesId_cons] at h ⊢
+      rcases List.mem_append.mp h with h | h
+      · exact Or.inr (List.mem_append_left _ h)
+      · rcases ih h with e' | e'
+        · exact Or.inl e'
+        · exact Or.inr (List.mem_append_right _ e')
+
+theorem mem_entries_cellsAdd {v a : Str} {id : Nat} {img : Image} {cs : Cells} {e : Str × Str × Nat × Image} :
+    e ∈ entries (cellsAdd cs v a id img) → e = (v, a, id, img) ∨ e ∈ entries cs := by
+  induction cs with
+  | nil => intro h; simp [cellsAdd, entries] at h; exact Or.inl h
+  | cons va rest ih =>
+    obtain ⟨v', as⟩ := va
+    unfold cellsAdd
+    split
+    · rename_i hh
+      have h' : v' = v := by simpa using hh
+      subst h'
+      intro h
+      rw [entries_cons] at h ⊢
+      rcases List.mem_append.mp h with h | h
+      · rcases mem_entries_archAdd h with e' | e'
+        · exact Or.inl e'
+        · exact Or.inr (List.mem_append_left _ e')
+      · exact Or.inr (List.mem_append_right _ h)
+    · intro h
+      rw [entries_cons] at h ⊢
+      rcases List.mem_append.mp h with h | h
+      · exact Or.inr (List.mem_append_left _ h)
+      · rcases ih h with e' | e'
+        · exact Or.inl e'
+        · exact Or.inr (List.mem_append_right _ e')
+
+theorem idsBelow_cellsAdd {v a : Str} {n : Nat} {img : Image} {cs : Cells} (h : IdsBelow (n + 1) cs) :
+    IdsBelow (n + 1) (cellsAdd cs v a n img) := by
+  intro e he
+  rcases mem_entries_cellsAdd he with rfl | h'
+  · exact Nat.lt_succ_self _
+  · exact h e h'
+
+/-- a successful `self.add(...)` of the reader with object id `n` -/
+theorem addPy_ids {s s' : ImgState} {variant arch : PyVal} {n : Nat} {img : Image}
+    (h : addPy s variant arch n img = .ok s') (hb : IdsBelow (n + 1) s.cells) :
+    IdsBelow (n + 1) s'.cells ∧ ∀ x ∈ s.cells.all, x ∈ s'.cells.all := by
+  unfold addPy at h
+  split at h
+  · split at h
+    · rename_i a _ v
+      split at h
+      · rename_i s1 hadd
+        injection h with h
+        subst h
+        rw [add_ok_cells s s1 v a n img hadd]
+        exact ⟨idsBelow_cellsAdd hb, fun x hx => mem_cellsAdd_old hx⟩
+      · cases h
+    · split at h <;> cases h
+  · cases h
+
+theorem refile_ids (variant : PyVal) (n : Nat) (img : Image) :
+    ∀ (l : List PyVal) (s s' : ImgState), refile s variant n img l = .ok s' → IdsBelow (n + 1) s.cells →
+      IdsBelow (n + 1) s'.cells ∧ ∀ x ∈ s.cells.all, x ∈ s'.cells.all := by
+  intro l
+  induction l with
+  | nil => intro s s' h hb; simp only [refile, Except.ok.injEq] at h; subst h; exact ⟨hb, fun _ h => h⟩
+  | cons va rest ih =>
+    intro s s' h hb
+    unfold refile at h
+    split at h
+    · exact ih s s' h hb
+    · obtain ⟨s1, h1, h2⟩ := bind_ok h
+      obtain ⟨hb1, hm1⟩ := addPy_ids h1 hb
+      obtain ⟨hb2, hm2⟩ := ih s1 s' h2 hb1
+      exact ⟨hb2, fun x hx => hm2 x (hm1 x hx)⟩
+
+theorem pyEq_str (a b : Str) : pyEq (.str a) (.str b) = true ↔ a = b := by
+  rw [pyEq_iff]
+  have e1 : eqKey (.str a) = .str a := rfl
+  have e2 : eqKey (.str b) = .str b := rfl
+  rw [e1, e2]
+  constructor
+  · intro h; injection h
+  · intro h; rw [h]
+
+/-- one entry of the table, any format version: the image is read, ids stay below the counter, nothing is lost, and
+unless the entry sits under `src` in a document that re-files (`old`), the image is filed -/
+theorem loadOne_files_any (ver images : PyVal) (vt : VerT) (hvt : versionTuple ver = .ok vt) (old : Bool)
+    (hold : gateEval Gen.gate_images_Images_deserialize_0 vt = .ok old)
+    (v a : Str) (d : PyVal) (s : ImgState) (n : Nat) (r : ImgState × Nat) (hb : IdsBelow n s.cells)
+    (h : loadCell ver images (.str v) (.str a) [d] (s, n) = .ok r) :
+    ∃ img, Image.deserialize ver d = .ok img ∧ r.2 = n + 1 ∧ IdsBelow (n + 1) r.1.cells
+      ∧ (∀ x ∈ s.cells.all, x ∈ r.1.cells.all) ∧ ((old = true → a ≠ L "src") → img ∈ r.1.cells.all) := by
+  have hb1 : IdsBelow (n + 1) s.cells := fun e he => Nat.lt_succ_of_lt (hb e he)
+  unfold loadCell at h
+  obtain ⟨img, h1, ha⟩ := bind_ok h
+  obtain ⟨vt', h2, hb'⟩ := bind_ok ha
+  obtain ⟨old', h3, hc⟩ := bind_ok hb'
+  obtain ⟨s1, h4, hfin⟩ := bind_ok hc
+  clear h ha hb' hc
+  rw [hvt] at h2; injection h2 with h2; subst h2
+  rw [hold] at h3; injection h3 with h3; subst h3
+  simp only [loadCell] at hfin
+  have h' : (Except.ok (s1, n + 1) : Except Err (ImgState × Nat)) = .ok r := hfin
+  injection h' with h'
+  subst h'
+  refine ⟨img, h1, rfl, ?_⟩
+  -- the plain `add` branch
+  have plain : addPy s (.str v) (.str a) n img = .ok s1 →
+      IdsBelow (n + 1) s1.cells ∧ (∀ x ∈ s.cells.all, x ∈ s1.cells.all) ∧ img ∈ s1.cells.all := by
+    intro hadd
+    obtain ⟨hbb, hmm⟩ := addPy_ids hadd hb1
+    refine ⟨hbb, hmm, ?_⟩
+    simp only [addPy] at hadd
+    split at hadd
+    · rename_i s2 hadd'
+      injection hadd with hadd
+      subst hadd
+      rw [add_ok_cells s s2 v a n img hadd']
+      obtain ⟨htr, _⟩ := triples_cellsAdd v a n img s.cells hb
+      rw [all_eq]
+      exact List.mem_map.mpr ⟨(v, a, img), htr.mem_iff.mpr List.mem_cons_self, rfl⟩
+    · cases hadd
+  unfold fileLoaded at h4
+  split at h4
+  · rename_i hold'
+    split at h4
+    · rename_i hsrc
+      obtain ⟨archs, _, h5⟩ := bind_ok h4
+      obtain ⟨hbb, hmm⟩ := refile_ids (.str v) n img archs s s1 h5 hb1
+      refine ⟨hbb, hmm, ?_⟩
+      intro hns
+      exact absurd ((pyEq_str a (L "src")).mp hsrc) (hns hold')
+    · obtain ⟨p1, p2, p3⟩ := plain h4
+      exact ⟨p1, p2, fun _ => p3⟩
+  · obtain ⟨p1, p2, p3⟩ := plain h4
+    exact ⟨p1, p2, fun _ => p3⟩
+
+theorem loadTriples_files_any (ver images : PyVal) (vt : VerT) (hvt : versionTuple ver = .ok vt) (old : Bool)
+    (hold : gateEval Gen.gate_images_Images_deserialize_0 vt = .ok old) :
+    ∀ (ts : List (Str × Str × PyVal)) (s : ImgState) (n : Nat) (r : ImgState × Nat), IdsBelow n s.cells →
+      loadTriples ver images ts (s, n) = .ok r →
+      IdsBelow r.2 r.1.cells ∧ (∀ x ∈ s.cells.all, x ∈ r.1.cells.all)
+        ∧ ∀ t ∈ ts, (old = true → t.2.1 ≠ L "src") → ∀ img, Image.deserialize ver t.2.2 = .ok img → img ∈ r.1.cells.all := by
+  intro ts
+  induction ts with
+  | nil =>
+    intro s n r hids h
+    simp only [loadTriples, Except.ok.injEq] at h
+    subst h
+    exact ⟨hids, fun _ h => h, fun t ht => by cases ht⟩
+  | cons t rest ih =>
+    intro s n r hids h
+    simp only [loadTriples] at h
+    cases h1 : loadCell ver images (.str t.1) (.str t.2.1) [t.2.2] (s, n) with
+    | error e => rw [h1] at h; cases h
+    | ok r1 =>
+      rw [h1] at h
+      obtain ⟨img, hd, hn, hb, hmono1, hfiled⟩ := loadOne_files_any ver images vt hvt old hold t.1 t.2.1 t.2.2 s n r1 hids h1
+      obtain ⟨s1, n1⟩ := r1
+      simp only at hn hb hmono1 hfiled
+      subst hn
+      obtain ⟨hb', hmono, hfiles⟩ := ih s1 (n + 1) r hb h
+      refine ⟨hb', fun x hx => hmono x (hmono1 x hx), ?_⟩
+      intro t' ht' hns img' hd'
+      rcases List.mem_cons.mp ht' with rfl | hrest
+      · rw [hd] at hd'; injection hd' with hd'; subst hd'
+        exact hmono _ (hfiled hns)
+      · exact hfiles t' hrest hns img' hd'
+
 end PM.Img
